@@ -23,10 +23,17 @@ def main():
             subprocess.run(["git", "-C", wt, "reset", "-q", "--hard"], check=True)
             subprocess.run(["git", "-C", wt, "clean", "-fdq", "-e", "target", "-e", "Cargo.lock"], check=True)
             if "patch" in m:
-                subprocess.run(["git", "-C", wt, "apply", os.path.join(VERIF, "selftest", m["patch"])], check=True)
+                if subprocess.run(["git", "-C", wt, "apply", os.path.join(VERIF, "selftest", m["patch"])], capture_output=True).returncode != 0:
+                    print("SELFTEST-BROKEN %s: %s no longer applies to /repo" % (m["name"], m["patch"]))
+                    fails += 1
+                    continue
                 src = None
             elif "revert" in m:
-                subprocess.run(["git", "-C", wt, "revert", "--no-commit", m["revert"]], check=True, capture_output=True)
+                if subprocess.run(["git", "-C", wt, "revert", "--no-commit", m["revert"]], capture_output=True).returncode != 0:
+                    subprocess.run(["git", "-C", wt, "revert", "--abort"], capture_output=True)
+                    print("SELFTEST-BROKEN %s: commit %s no longer reverts cleanly" % (m["name"], m["revert"]))
+                    fails += 1
+                    continue
                 subprocess.run(["git", "-C", wt, "reset", "-q"], check=True)
                 src = None
             else:
